@@ -62,8 +62,6 @@ Section Rel.
       fin = fin' /\ d1 = d1' /\ st1 = st1' /\ ev1 = ev1' /\ aeq a1 a1' /\ dl_ok a1 a1'.
     Lemma rel_res_intro fin d0 st ev a1 a1' : aeq a1 a1' -> dl_ok a1 a1' -> rel_res (fin, d0, a1, st, ev) (fin, d0, a1', st, ev).
     Proof. intros H K. unfold rel_res. repeat split; try apply H. exact K. Qed.
-    Lemma nd_top x e1 a0 : cur e1 = Some x -> (forall us, x <> Delay us) -> dl_ok (put_top e1 rest a0) (put_top e1 rest a0) -> True.
-    Proof. auto. Qed.
     Lemma dl_top x e1 (a0 a0' : action) e1' r' : cur e1 = Some x -> (forall us, x <> Delay us) -> dl_ok (put_top e1 rest a0) (put_top e1' r' a0').
     Proof. intros Hc Hn. right. left. intros e2 r2 us E. injection E as <- _. rewrite Hc. intros K. injection K as K. exact (Hn us K). Qed.
     Lemma dl_same x a0' : cur e = Some x -> (forall us, x <> Delay us) -> a_exec a = e :: rest -> forall a0, a_exec a0 = a_exec a -> dl_ok a0 a0'.
